@@ -68,7 +68,10 @@ NoRouteRec == [src |-> <<>>, strip |-> <<>>, prepend |-> <<>>, hostopt |-> "", t
                code |-> [txt |-> "", num |-> 0],
                tpl |-> [scheme |-> "", host |-> "", pre |-> <<>>, var |-> FALSE, slash |-> FALSE, query |-> <<>>],
                admitted |-> TRUE,
-               ghost |-> FALSE]        \* the route's host is a pattern that several request hosts match
+               ghost |-> FALSE,        \* the route's host is a pattern that several request hosts match
+               dead |-> FALSE,         \* the route's only instance refuses connections
+               hostform |-> ""]        \* how the route's host is written: "" (the request's host), "port80" (with :80),
+                                       \* "none" (a route without a host: matches whatever host is asked for)
 NoHdr  == [mode |-> "none", vals |-> <<>>]
 NoManaged == [clientip |-> NoHdr, xff |-> NoHdr, xrealip |-> NoHdr, tlshdr |-> NoHdr,
               xfproto |-> NoHdr, forwarded |-> NoHdr, xfport |-> NoHdr, xfhost |-> NoHdr]
@@ -145,10 +148,15 @@ XffClient    == CASE c.forged["xff"] = "absent" -> <<>>
                   [] c.forged["xff"] = "sfx"    -> <<"x1", "sfxpeer">>
                   [] c.forged["xff"] = "pfx"    -> <<"x1", "peerpfx">>
                   [] c.forged["xff"] = "dup"    -> <<"x1", "peer">>
+                  [] c.forged["xff"] \in {"empty1", "blank2"} -> <<>>      \* header lines with an empty / blank value only
+                  [] c.forged["xff"] = "emptymix"  -> <<"x1">>             \* an empty line and one with an address
                   [] c.forged["xff"] = "truelast"  -> <<"x1", "peer">>
                   [] c.forged["xff"] = "truefirst" -> <<"peer", "x1">>
                   [] OTHER -> <<"x1">>
-ExpXFF       == [mode |-> IF c.forged["xff"] \in {"dup", "truelast"} THEN "listdup" ELSE "list", vals |-> XffClient \o <<"peer">>]
+\* ("listne": empty elements that empty client lines may leave in the list are not judged)
+ExpXFF       == [mode |-> IF c.forged["xff"] \in {"dup", "truelast"} THEN "listdup"
+                          ELSE IF c.forged["xff"] \in {"empty1", "blank2", "emptymix"} THEN "listne" ELSE "list",
+                 vals |-> XffClient \o <<"peer">>]
 \* X-Real-Ip carries the peer unless the client already sent one
 ExpRealIP    == IF Sent("xrealip") THEN Eq(ClientVals("xrealip")) ELSE Eq(<<"peer">>)
 \* the TLS header is present with the configured value exactly when the connection used TLS, whatever was sent
@@ -234,7 +242,13 @@ AddHeaders == /\ pc = "target"
               /\ up' = [up EXCEPT !.managed = Managed]
               /\ pc' = "headers"
               /\ UNCHANGED <<sel, c, i, route, hits, out, env>>
-Forward  == /\ pc = "headers"
+\* the environment can fail at this step: the instance refuses the connection.  fabio answers with an error of its
+\* own; the request is NOT handed to anybody else (no other route's upstream sees it)
+DialFails == /\ pc = "headers" /\ route.dead
+             /\ out' = [NoOut EXCEPT !.kind = "badgateway", !.sts = ExpSTS]
+             /\ pc' = "done"
+             /\ UNCHANGED <<sel, c, i, route, up, hits, env>>
+Forward  == /\ pc = "headers" /\ ~route.dead
             /\ hits' = hits + 1
             /\ pc' = "forwarded"
             /\ UNCHANGED <<sel, c, i, route, up, out, env>>
@@ -245,7 +259,7 @@ Respond  == /\ pc = "forwarded"
             /\ UNCHANGED <<sel, c, i, route, up, hits, env>>
 
 Next == \/ ChooseOuter \/ ChooseCase \/ RegistryPage \/ Arrive \/ PageUpdate \/ Lookup \/ NextHost \/ NoRoute \/ Deny \/ Redirect
-        \/ BuildTarget \/ AddHeaders \/ Forward \/ Respond
+        \/ BuildTarget \/ AddHeaders \/ DialFails \/ Forward \/ Respond
 Spec == Init /\ [][Next]_vars
 
 -----------------------------------------------------------------------------
@@ -262,8 +276,8 @@ Forwarded == hits > 0
 ForwardOnlyRouted == Forwarded => /\ hits = 1 /\ route # NoRouteRec /\ Matches(route)
                                   /\ route.admitted /\ ~IsRedirect(route)
 \* no route, denied, redirect: answered without any upstream
-AnsweredLocally == (pc = "done" /\ out.kind \in {"noroute", "denied", "redirect"}) => hits = 0
-EveryAnswerHasAKind == pc = "done" => out.kind \in {"noroute", "denied", "redirect", "upstream"}
+AnsweredLocally == (pc = "done" /\ out.kind \in {"noroute", "denied", "redirect", "badgateway"}) => hits = 0
+EveryAnswerHasAKind == pc = "done" => out.kind \in {"noroute", "denied", "redirect", "upstream", "badgateway"}
 \* C07
 PathStaysAbsolute == Forwarded => up.path # <<>> /\ up.path[1] = "/"
 EscapesSurvive    == Forwarded => EscapesOf(up.path) = EscapesOf(WireSeq(route.prepend)) \o
@@ -281,7 +295,10 @@ TLSHeaderTruthful == (Forwarded /\ c.cfgtls) =>
                         /\ (~c.tls => up.managed.tlshdr.vals = <<>>)
 RequestedHostIsTold == (Forwarded /\ ~Sent("xfhost")) => up.managed.xfhost.vals = <<"reqhost">>    \* whatever route.hostopt
 RequestedPortIsTold == (Forwarded /\ ~Sent("xfport") /\ c.rhost = "ported") => up.managed.xfport.vals = <<"reqport">>
-STSOnlyOnTLS == (pc = "done" /\ out.kind = "upstream" /\ ~c.tls) => out.sts = Eq(<<>>)
+STSOnlyOnTLS == (pc = "done" /\ out.kind \in {"upstream", "badgateway"} /\ ~c.tls) => out.sts = Eq(<<>>)
+\* ... and on TLS connections every answer carries it, also the one fabio makes up when the upstream fails
+STSOnEveryTLSAnswer == (pc = "done" /\ out.kind \in {"upstream", "badgateway"} /\ c.tls /\ c.cfgsts /\ c.kind = "http")
+                          => out.sts = Eq(<<"stsvalue">>)
 \* C13
 RedirectStatusIs3xx == (pc = "done" /\ out.kind = "redirect") => out.status >= 300 /\ out.status <= 399
 NeverRedirectsToItself == (pc = "done" /\ out.kind = "redirect") =>
